@@ -421,11 +421,16 @@ func init() {
 				us = append(us, shardUnits("mt-1w2r", 3, 8)...)
 			}
 			us = append(us, shardUnits("mt-1w1r-immutable", -1, n)...)
+			us = append(us, raceUnits(c18Scenarios(), nil)...)
 			return us
 		},
+		ExeFor: raceExe,
 		Run: func(unit string, env *fw.Env) *fw.Result {
 			if strings.HasPrefix(unit, "seq/") {
 				return c18SeqUnit(unit, env)
+			}
+			if strings.HasPrefix(unit, "race/") {
+				return raceRun("C18", c18Scenarios(), unit, env)
 			}
 			sp := parseSched(unit)
 			for _, sc := range c18Scenarios() {
